@@ -20,7 +20,7 @@ What is TRANSLATED (expressions / branch structure become Gallina):
   json_io._update_dual_stage  p_max, gain_flatmax of a dual stage and the gain_min test                -> g_dual_p_max, g_dual_gain_flatmax, g_dual_rejected
   science_utils.estimate_nf_model   the whole function (guards, 2x2 solve, clipping branch, acceptance tests) -> g_estimate_nf_model
 What is TEMPLATE-MATCHED (every statement must be the expected one; holes H_x are the translated parts): the numpy
-interpolation / bookkeeping statements of interpol_params, _calc_nf, _gain_profile, propagate, __call__,
+interpolation / bookkeeping statements of SpectralInformation.__init__ (sorting of every per-channel array), interpol_params, _calc_nf, _gain_profile, propagate, __call__,
 demuxed_spectral_information (the arguments handed to is_in_band) and _update_dual_stage.
 Anything outside this raises Unsupported: the tie is then reported as broken.
 Number conventions: int 0 -> nzero, 1 -> none, k -> #k; a float literal is written dec m e with m without trailing zeros
@@ -526,6 +526,9 @@ def gen_estimate(tree):
 def generate(repo=None):
     repo = repo or common.REPO
     trees = {p: ast.parse(open(os.path.join(repo, p)).read()) for p in (ELEMENTS, INFO, JSON_IO, SCIENCE)}
+    # the per-channel vectors of the model are those of the spectral information: every array sorted by frequency alike
+    from .pygen_c03 import SI_INIT_TEMPLATE
+    match_template(SI_INIT_TEMPLATE, strip_doc(find(trees[INFO], 'SpectralInformation.__init__').body), 'SpectralInformation.__init__')
     parts = ['(* GENERATED on every run by harness/pygen_c04.py from gnpy/core/elements.py, gnpy/core/info.py,',
              '   gnpy/tools/json_io.py and gnpy/core/science_utils.py of /repo - do not edit. *)',
              'From Verif Require Import Prelude Num Model.Amp.', 'From Coq Require Import List.', 'Import ListNotations.', '',
